@@ -5,6 +5,8 @@ the generator answer.
 -/
 import Hfsm.Proofs.RegistryView
 
+set_option linter.unusedSimpArgs false
+
 namespace Hfsm
 variable {U : Type} [UtilArith U]
 
